@@ -289,6 +289,29 @@ def fam_cancel(rng, sid):
     s.main.append(("destroy", ""))
     return s
 
+def fam_progress(rng, sid):
+    """the client waits for its jobs to finish before it destroys the queue (as the build engine does): idle lanes must
+    be woken by addJob alone, whether the job is added by the client or by another job"""
+    s = Scn(sid, "progress", lanes=rng.randint(1, 4), alg=rng.choice(["fifo", "name"]))
+    s.watchdog = 20
+    n = rng.randint(1, 5); ids = ["j%d" % i for i in range(n)]
+    parent = {j: (None if i == 0 or rng.random() < 0.5 else rng.choice(ids[:i])) for i, j in enumerate(ids)}
+    for j in ids:
+        steps = [("sleep", rng.choice([0, 0, 500, 2500]))]
+        for k in ids:
+            if parent[k] == j: steps += [("sleep", rng.choice([0, 1500, 3000])), ("add", k)]
+        steps.append(("open", "g" + j))
+        s.job(j, prio=rng.choice(["N", "H"]), steps=steps)
+    s.shuffle_ords(rng)
+    s.main.append(("sleep", rng.choice([1000, 3000, 6000])))        # the lanes go to sleep on the empty queue
+    for j in ids:
+        if parent[j] is None:
+            s.main.append(("add", j))
+            if rng.random() < 0.5: s.main += [("wait", "g" + j), ("sleep", rng.choice([0, 2000]))]
+    for j in ids: s.main.append(("wait", "g" + j))
+    s.main.append(("destroy", ""))
+    return s
+
 def fam_bound(rng, sid):
     """more timed jobs than lanes: the number of jobs in flight must never exceed the lane count"""
     s = Scn(sid, "bound", lanes=rng.randint(1, 4), alg=rng.choice(["fifo", "name"]))
@@ -317,7 +340,7 @@ def fam_serial(rng, sid):
     s.main.append(("destroy", ""))
     return s
 
-FAMILIES = [(fam_mix, 30), (fam_drain, 16), (fam_procs, 16), (fam_release, 10), (fam_cancel, 14), (fam_bound, 6), (fam_serial, 8)]
+FAMILIES = [(fam_mix, 30), (fam_drain, 16), (fam_procs, 16), (fam_release, 10), (fam_cancel, 14), (fam_bound, 6), (fam_serial, 8), (fam_progress, 10)]
 
 def gen_scenarios(seed, n, only=None):
     rng = random.Random(seed * 1000003 + 16)
@@ -356,6 +379,7 @@ def run_driver(binary, text, wd, tag, timeout=600, env=None):
         m = re.search(r"ERROR: (\w+Sanitizer: [\w-]+)|WARNING: (ThreadSanitizer: [\w -]+)", err)
         if m: kind = (m.group(1) or m.group(2)).strip()
         problems.append(dict(index=bad, kind=kind, rc=rc, err=err[-1500:]))
+        if len(problems) >= 3: break          # enough evidence from this batch; keeps a broken tree from costing hours
         if rc not in (3, 124) and nend == len(blocks) - i: break      # e.g. a sanitizer report at exit
         i = bad + 1
     return lines, problems
